@@ -45,7 +45,7 @@ def canon(x):
             return "NaN"
         if math.isinf(x):
             return "Inf" if x > 0 else "-Inf"
-        return float(repr(x))
+        return float(x)
     if np is not None:
         if isinstance(x, np.generic):
             return canon(x.item())
